@@ -58,7 +58,7 @@ def worker_main(argv):
             harness.reset_yowsup()
             return fn(ctx, *args)
         try:
-            st = core.explore(run, max_paths=c.get("max_paths", 20000), timeout_s=c.get("timeout_s", 120),
+            st = core.explore(run, max_paths=c.get("max_paths", 20000), timeout_s=c.get("timeout_s", getattr(mod, "DEFAULT_TIMEOUT_S", 120)),
                               expected=tuple(c.get("expected", ())))
         except BaseException as e:
             st = dict(paths=0, infeasible=0, obligations=0, discharged=0, queries=0, solver_s=0.0, violations=[],
@@ -177,13 +177,13 @@ def main(argv=None):
         load[i] += c.get("weight", 1.0)
     results = {}
     loaded = {}
-    budget = sum(c.get("timeout_s", 120) for c in cs)
+    budget = sum(c.get("timeout_s", getattr(mod, "DEFAULT_TIMEOUT_S", 120)) for c in cs)
 
     def run_bin(i):
         if not bins[i]:
             return None
         out = os.path.join(tmp, "w%d.json" % i)
-        tmo = sum(next(c for c in cs if c["name"] == n).get("timeout_s", 120) for n in bins[i]) + 60
+        tmo = sum(next(c for c in cs if c["name"] == n).get("timeout_s", getattr(mod, "DEFAULT_TIMEOUT_S", 120)) for n in bins[i]) + 60
         rc, log = _spawn("worker", modname, tier, ["--cases", "\t".join(bins[i])], out, tmo)
         return i, rc, log, out
     with concurrent.futures.ThreadPoolExecutor(nj) as ex:
